@@ -13,6 +13,9 @@ CHECKS = {
     "C07": dict(spec="ErrorClass", ref="DESIGN.md §4 C07",
                 text="The error-code sets and helper list are extracted from the tree into TLA+ constants; TLC checks disjointness, partition of the named codes, equality with the documented sets and totality/agreement of the classification over all 1602 codes x helpers. Every code of both ranges plus seeded 64-bit codes is then sent as an error response (7 shapes) to real calls of every discovered request helper and to is_retryable_error, and TLC judges each observed outcome (class raised, code and message carried, False from the boolean helpers) against the specification. The ErrNeverNormal clause is also checked on RequestWait and on recorded send_message traces.",
                 note="Trusted: TLC; the documented sets are transcribed from the pinned errors.py; 64-bit codes are abstracted to one class; send_initialize* are judged only for 'no normal return' (they convert version errors by design)."),
+    "C08": dict(spec="ServerDispatch", ref="DESIGN.md §4 C08",
+                text="ServerDispatch models handle_message step by step (lookup, invoke, reply) over message kind x method class (core, tool/resource returning/raising/nonsense/unknown/unhashable, custom ok/raises/nonsense/none, every MessageMethod.NOTIFICATION_* name, unregistered, random) x params shape x id class; TLC checks one-response-per-request, no-response-per-notification, never-raises and the statement's code table exhaustively, on the deviation-free design and on the model of the tree. Every case is then executed against a real MCPServer/ProtocolHandler and TLC judges the observed outcome (and the JSON line a stdio loop would print) against the clauses and against the implementation-shaped prediction (drift).",
+                note="Trusted: TLC; the configured server in harness/drivers/server_drv.py; notification names extracted from MessageMethod. Known finding: a handler returning (None, sid) to a request (pinned by a repository test)."),
     "C14": dict(spec="RequestWait", ref="DESIGN.md §4 C14",
                 text="Same specification as C01 with cancellation tokens, progress callbacks and traffic patterns; deadline, cancellation-promptness, single-cancel-notification and exact-progress clauses are invariants checked by TLC on the model and on every recorded execution (including floods every 10 ms).",
                 note="Trusted: TLC, the virtual clock (anyio deadlines are loop timers). Time is virtual; real-time scheduling jitter is out of scope."),
